@@ -173,11 +173,12 @@ func (t *RuntimeType) IsAssignable(o px.Type, g px.Guard) bool {
 		if t.runtime != rt.runtime {
 			return false
 		}
+		if t.pattern != nil {
+			// a type with a pattern has no instance; it accepts the types that have its name and its pattern, also when the name is empty
+			return t.name == rt.name && rt.pattern != nil && t.pattern.pattern.String() == rt.pattern.pattern.String()
+		}
 		if t.name == `` {
 			return true
-		}
-		if t.pattern != nil {
-			return t.name == rt.name && rt.pattern != nil && t.pattern.pattern.String() == rt.pattern.pattern.String()
 		}
 		if t.name == rt.name {
 			return true
